@@ -14,6 +14,10 @@ class PeerTargetClf(object):
 
     def exchange(self, data, timeout):
         self.sent.append(bytes(data))
+        if len(data) == 7 and data[2:4] == b'\xD4\x04':
+            # PSL_REQ (F0 06 D4 04 did brs fsl) is answered with PSL_RES (D5 05 did)
+            res = bytes([0xD5, 0x05, data[4]])
+            return bytearray(bytes([0xF0, len(res) + 1]) + res)
         nfcid3 = nondet_bytes(10, 10)
         res = enc_atr_res(nfcid3, self.did, 0, 0, self.wt, pp_of(self.lrt, len(self.gbt) > 0, False), self.gbt)
         return bytearray(bytes([0xF0, len(res) + 1]) + res)
